@@ -11,8 +11,6 @@ import (
 
 // placeholders extended later (reflect shim, more stubs)
 
-type RVal struct{}
-type RType struct{ t interface{ String() string } }
 
 // computeInjectedImpl obtains the two registry scalars the palette code reads
 // from packages whose init is not executed symbolically (DESIGN 3.3): a native
